@@ -40,6 +40,7 @@ ROOTS = [
     "an.FirstValue({x}).over({y}).ignore_nulls()", "fn.Extract('year', {x})", "fn.Cast({x}, 'INT')", "({x} % {y})", "({x} ** 2)",
     "{x}.like('a%')", "{x}.as_of('2020')", "terms.NestedCriterion(terms.Equality.eq, terms.Boolean.and_, {x}, {y}, {z})",
     "fn.DateAdd('day', {x}, {y})", "{x}.as_('al')", "terms.AtTimezone(A.a, 'UTC')", "terms.Values(A.b)", "terms.AtTimezone(C.a, 'CET', interval=True)",
+    "({x} + Interval(days=1))", "fn.Coalesce({x}, Interval(hours=2))", "({x} > fn.Now() - Interval(weeks=1))",
     "JSON({{'a': 1}}).get_json_value('k')", "fn.Upper({x}).like({y})", "ExistsCriterion(Query.from_(A).select({x}))",
     "{x}.isin(Query.from_(A).select({x}))", "{x}.isin(Query.from_(C).select(C.c).where(C.c == {x}))",
 ]
